@@ -512,6 +512,14 @@ func ParentMain(id, tier string, seed int64, self string, instrInfo string) int 
 		if matched {
 			continue
 		}
+		if os.Getenv("VERIF_NO_CONFIRM") == "" && nviol < 6 {
+			ok, note := confirmViolation(self, id, tier, seed, units, v)
+			if !ok {
+				harnessErrs = append(harnessErrs, fmt.Sprintf("violation %q was NOT reproducible and is not reported as a finding: %s", v.Sig, note))
+				continue
+			}
+			v.Detail += "\n(" + note + ")"
+		}
 		nviol++
 		path := writeReplay(id, v)
 		fmt.Printf("VIOLATION property=%s replay=%s\n", id, path)
@@ -605,4 +613,53 @@ func DebugUnit(id, sub, tier string, seed int64) {
 		}
 	}
 	fmt.Println("no such unit")
+}
+
+// UnitJSONMain runs one unit by index and prints its result as JSON (used to confirm violations).
+func UnitJSONMain(id, tier string, seed int64, idx int, deadlineUnix int64) {
+	ck := Lookup(id)
+	units := ck.Units(tier, seed)
+	if idx < 0 || idx >= len(units) {
+		os.Exit(2)
+	}
+	res := RunUnit(units[idx], idx, tier, seed, time.Unix(deadlineUnix, 0))
+	b, _ := json.Marshal(res)
+	os.Stdout.Write(append(b, '\n'))
+}
+
+// confirmViolation re-runs the unit that reported v twice in fresh processes; the same signature must
+// reappear both times before the violation is believed (the same input must fail every time).
+func confirmViolation(self, id, tier string, seed int64, units []Unit, v Violation) (confirmed bool, note string) {
+	unit, _ := v.Replay["unit"].(string)
+	idx := -1
+	for i, u := range units {
+		if u.Name == unit {
+			idx = i
+		}
+	}
+	if idx < 0 {
+		return true, "unit not identified; not re-run"
+	}
+	for k := 0; k < 2; k++ {
+		wd, _ := os.MkdirTemp("", "vconfirm-")
+		cmd := exec.Command(self, "unit-json", id, "--tier", tier, "--seed", strconv.FormatInt(seed, 10), "--index", strconv.Itoa(idx), "--deadline", strconv.FormatInt(time.Now().Add(15*time.Minute).Unix(), 10))
+		cmd.Dir = wd
+		out, err := cmd.Output()
+		os.RemoveAll(wd)
+		var res UnitResult
+		lines := strings.Split(strings.TrimSpace(string(out)), "\n")
+		if err2 := json.Unmarshal([]byte(lines[len(lines)-1]), &res); err2 != nil {
+			return false, fmt.Sprintf("confirmation run %d did not finish (%v %v)", k+1, err, err2)
+		}
+		found := false
+		for _, w := range res.Violations {
+			if w.Sig == v.Sig {
+				found = true
+			}
+		}
+		if !found {
+			return false, fmt.Sprintf("confirmation run %d of unit %q did not reproduce the signature", k+1, unit)
+		}
+	}
+	return true, "reproduced in 2 of 2 confirmation runs in fresh processes"
 }
